@@ -917,4 +917,6 @@ def run(ctx):
     # the crashing thread's recorded context is the supplied one, register for register, for every 64-bit pattern (same rule instance as C05/greg-map)
     from rules import c05 as _c05
     _c05.rule_greg_map(ctx, R="C04/crash-thread-registers")
-
+    # the stream reaches the caller's file where the directory says, wherever in the destination the dump starts (rules/families.py)
+    from rules import families as _famd
+    _famd.destination(ctx, "C04")
